@@ -5,6 +5,7 @@
 #include <asl/Mutex.h>
 #include <asl/Array.h>
 #include "vp.h"
+#include <unistd.h>
 using namespace asl;
 
 static int g_count[48];
@@ -126,19 +127,78 @@ extern "C" void h_sem(void)
 	vp_reach(1);
 }
 
+struct Waiter : public Thread
+{
+	Mutex* mutex; Condition* cond; bool* ready; int* seen;
+	void run() { mutex->lock(); while (!*ready) cond->wait(); (*seen)++; mutex->unlock(); }
+};
+// p1 = number of waiting threads (documented protocol: lock; while (!ready) wait(); unlock / lock; ready = true; signal(); unlock)
 extern "C" void h_cond(void)
 {
 	vp_sched_budget(vp_param(0));
+	int nw = vp_param(1);
 	Mutex mutex;
 	Condition cond(mutex);
 	bool ready = false;
 	int seen = 0;
 	{
-		Thread t([&]() { mutex.lock(); while (!ready) cond.wait(); seen = 1; mutex.unlock(); });
+		Waiter w[3];
+		for (int i = 0; i < nw; i++) { w[i].mutex = &mutex; w[i].cond = &cond; w[i].ready = &ready; w[i].seen = &seen; w[i].start(); }
+		if (!vp_symbolic_run()) usleep(100000);      // natively: let the waiters reach wait() first (the case the engine found)
 		mutex.lock(); ready = true; cond.signal(); mutex.unlock();
-		t.join();
+		for (int i = 0; i < nw; i++) w[i].join();
 	}
-	vp_assert(seen == 1, "the waiter observed the signalled condition");
+	vp_assert(seen == nw, "every waiter observed the signalled condition (no signal is lost)");
 	vp_note(seen);
+	vp_reach(1);
+}
+
+// two lambda threads of the same closure type started one after the other: each runs its own function exactly once
+extern "C" void h_lambda2(void)
+{
+	vp_sched_budget(vp_param(0));
+	int cnt[2] = { 0, 0 };
+	{
+		int which = 0;
+		auto mk = [&cnt](int k) { return [&cnt, k]() { cnt[k]++; }; };
+		Thread a(mk(0));
+		Thread b(mk(1));
+		(void)which;
+		a.join(); b.join();
+		vp_assert(a.finished() && b.finished(), "finished() after join() for both lambda threads");
+	}
+	vp_assert(cnt[0] == 1 && cnt[1] == 1, "each of two lambda threads of the same type ran its own function exactly once");
+	vp_note(cnt[0] + cnt[1]);
+	vp_reach(1);
+}
+
+// two function-object threads of the same type; natively the functor's copy is slow in the new thread, which holds the
+// thread inside the hand-over exactly where the engine's schedules switch
+#include <pthread.h>
+static pthread_t g_creator;
+struct SlowCopy
+{
+	int* cnt; int k; int pad[6];
+	SlowCopy(int* c, int i) : cnt(c), k(i) { for (int j = 0; j < 6; j++) pad[j] = 7; }
+	SlowCopy(const SlowCopy& o) : cnt(o.cnt), k(o.k)
+	{
+		if (!vp_symbolic_run() && !pthread_equal(pthread_self(), g_creator)) usleep(30000);
+		for (int j = 0; j < 6; j++) pad[j] = o.pad[j];
+	}
+	void operator()() const { if (k >= 0 && k < 2) cnt[k]++; else cnt[0] = -100; }
+};
+extern "C" void h_functor2(void)
+{
+	vp_sched_budget(vp_param(0));
+	g_creator = pthread_self();
+	int cnt[2] = { 0, 0 };
+	{
+		Thread a(SlowCopy(cnt, 0));
+		Thread b(SlowCopy(cnt, 1));
+		a.join(); b.join();
+		vp_assert(a.finished() && b.finished(), "finished() after join() for both function threads");
+	}
+	vp_assert(cnt[0] == 1 && cnt[1] == 1, "each of two function-object threads of the same type ran its own function exactly once");
+	vp_note(cnt[0] + cnt[1]);
 	vp_reach(1);
 }
